@@ -315,7 +315,7 @@ func cmdCheck(args []string) int {
 					if r := res[p.id]; r != nil {
 						why = fmt.Sprintf("native: failed=%v panic=%q assumeFailed=%v", r.Failed, r.Panic, r.AssumeFailed)
 					}
-					mismatches = append(mismatches, fmt.Sprintf("%s violation %s did not reproduce (%s) inputs: ints=%v strs=%v", p.v.Case.Harness, p.v.Label, why, p.v.Case.Ints, p.v.Case.Strs))
+					mismatches = append(mismatches, fmt.Sprintf("%s violation %s [%s] did not reproduce (%s) inputs: ints=%v strs=%v", p.v.Case.Harness, p.v.Label, p.v.Msg, why, p.v.Case.Ints, p.v.Case.Strs))
 				}
 			}
 		}
